@@ -280,7 +280,12 @@ impl<'tcx> Cx<'tcx> {
             if (vi.as_usize()) < adt.variants().len() {
               let var = adt.variant(vi);
               if idx.as_usize() < var.fields.len() {
-                name = Some(var.fields[idx].name.to_string());
+                // field name, qualified by the owning ADT when it is a local struct
+                if adt.did().is_local() && adt.is_struct() {
+                  name = Some(format!("{}@{}", var.fields[idx].name, dpath(tcx, adt.did())));
+                } else {
+                  name = Some(var.fields[idx].name.to_string());
+                }
               }
             }
           }
